@@ -234,7 +234,11 @@ def run_select(case, rec):
         d.dqx_data = d.dqy_data = None
         d.mask = (rng.random(n) < 0.25)
         qabs = np.hypot(qx, qy)
-        d.qmin, d.qmax = float(np.quantile(qabs, 0.1)), float(np.quantile(qabs, 0.9))
+        # limits strictly between two data radii: a limit equal to one |q| would make the verdict depend on
+        # the last bit of hypot() versus sqrt(qx^2+qy^2), which the statement does not fix
+        sq = np.sort(qabs)
+        lo_i, hi_i = max(int(0.1*n), 1), min(int(0.9*n), n - 2)
+        d.qmin, d.qmax = float(0.5*(sq[lo_i - 1] + sq[lo_i])), float(0.5*(sq[hi_i] + sq[hi_i + 1]))
         index = (~d.mask) & (qabs >= d.qmin) & (qabs <= d.qmax) & ~np.isnan(z)
         qsel = [qx[index], qy[index]]
         rec.bucket("select:mask", "select:qlimits", "select:nan")
